@@ -490,7 +490,7 @@ impl Fx {
                 event_authority: self.d.event_authority,
                 program: gmsol_store::ID,
             },
-            gmsol_store::instruction::ConfirmGtExchangeVaultV2 { buyback_value: None, buyback_price: None },
+            gmsol_store::instruction::ConfirmGtExchangeVaultV2 { buyback_value: 0, buyback_price: None },
         )
     }
 
